@@ -260,10 +260,10 @@ func modelAttempt(c *Ctx, a attempt, mapperVals []vh.Val) (pos vh.Val, calls []v
 	return
 }
 
-// substTx replaces float oracle markers inside a model transaction.
+// substTx replaces float oracle markers (FLOAT / DOUBLE cells, doubles inside JSON cells) inside a model transaction.
 func substTx(v vh.Val) vh.Val {
 	if !v.IsL {
-		if b, ok := v.Hex(); ok && len(b) > 4 && (string(b[:4]) == "F32:" || string(b[:4]) == "F64:") {
+		if b, ok := v.Hex(); ok && hasOracleMarker(b) {
 			return vh.X(substFloat(b))
 		}
 		return v
